@@ -43,7 +43,7 @@ CHECKS = {
 
 CHECKS.update({
     "C08": ("E2-stream", "exploration", "runtime monitor: recorded write/flush/poll history checked against a sequential model with position-unique payload; Miri + ASan legs",
-            "All op sequences up to length 4 (5 in thorough) over write/write_all/flush/poll for chunk sizes 1,2,3,4,7 plus long random sequences up to 64 KiB chunks are executed; frames, partial-write counts, flush availability and the clean end are compared with a sequential model.",
+            "All op sequences up to length 4 (5 in thorough) over write/write_all/flush/poll for chunk sizes 1,2,3,4,7 plus long random sequences up to 64 KiB chunks and block-filled chunks of 100000 bytes .. 1 MiB are executed; frames, partial-write counts, flush availability and the clean end are compared with a sequential model.",
             "Single-threaded histories; interleavings are C10's subject.", "5/C08"),
     "C09": ("E2-stream", "exploration", "runtime monitor: independent gzip member reader (own header/trailer/CRC-32, raw inflate) over recorded histories, streaming inflate after every flush; Python zlib re-check in thorough",
             "Every history's delivered stream must parse as exactly one gzip member equal to the bytes written, and after every flush a streaming inflater over the frames so far must reproduce everything written before it; levels 1..9, chunk sizes 1..64 KiB, incompressible / zero / text payloads up to 200 KiB per write.",
@@ -58,7 +58,7 @@ CHECKS.update({
             "About 40 million hint samples per quick run across serve bodies (Once / ExactLen / multipart), streaming bodies (raw, gzip, abort), scheduler runs and all Body::from conversions; lower <= remaining <= upper, exactness where promised, nothing after is_end_stream() = true.",
             "Range of the hint judged only for bodies that end cleanly, as the statement conditions.", "5/C12"),
     "C16": ("E4-negot", "exploration", "runtime oracle: independent RFC 7231 5.3.4 evaluator over the exhaustive list space; libFuzzer+ASan and Miri legs",
-            "All lists of up to 3 elements (4 in thorough: 77 million evaluations) over 6 codings x 11 weights x 4 whitespace layouts are compared with an independent evaluator; random and mutated byte strings for the no-panic clause.",
+            "All lists of up to 3 elements (4 in thorough: 77 million evaluations) over 6 codings x 11 weights x 4 whitespace layouts are compared with an independent evaluator, three quarters of them with request headers of neighbouring concerns (Range, If-Range, validators, TE, ...) in the same map; random and mutated byte strings for the no-panic clause.",
             "Lists whose repeated codings make first/last/max/min-wins disagree are not judged.", "5/C16"),
     "C17": ("E2-stream", "exploration", "runtime monitor: header decision vs should_gzip && level>0, body coding verified by the gzip member reader, Request vs Parts vs HEAD compared",
             "Complete product of 300 Accept-Encoding values x gzip level default/0..9 x 3 chunk sizes, each built for GET, POST, HEAD as Request and as Parts; Vary, Content-Encoding, writer presence and the actual body coding are checked.",
@@ -67,7 +67,7 @@ CHECKS.update({
             "Real temporary files of 7 sizes around the 64 KiB read size; all boundary range pairs x read caps; truncation points x poll index; the same through serve(); ETag stability / change histories; non-regular files.",
             "File system supports nanosecond mtimes; bounded polls = range length + 8.", "5/C18"),
     "C19": ("E6-dir", "exploration", "runtime oracle: in-memory POSIX path resolver (self-checked against the kernel) over the exhaustive hostile path space on a real tree; descriptor-count monitor; memcheck + ASan legs",
-            "Every path of up to 3 segments (4 in thorough) over the hostile segment alphabet, NUL at every position of 300 paths, x 6 Accept-Encoding values x auto_gzip on/off, on a real tree with a secret file outside the base; the returned node's (dev, inode), errno class, encoding() and headers are compared with the resolver's prediction.",
+            "Every path of up to 3 segments (4 in thorough) over the hostile segment alphabet, NUL at every position of 300 paths, x 6 Accept-Encoding values x auto_gzip on/off (three quarters of the cases with other request headers - Range, If-Range, validators - riding along), on a real tree with a secret file outside the base; the returned node's (dev, inode), errno class, encoding() and headers are compared with the resolver's prediction.",
             "Symlinks, permissions and over-long names are outside the quantifier.", "5/C19"),
     "C20": ("E1 + E2 + E3", "fault_enumeration", "fault enumeration: every body polled 2-4 more times after each kind of terminal event, at every fault position",
             "All C07 fault cases (every chunking x fault x offset x shape incl. every multipart part), the honest C01/C06 workloads, the C08/C09/C11 sequences and abort schedules are polled on after their first terminal event; a panic or data frame is a violation.",
